@@ -332,6 +332,26 @@ Fixpoint rune_start_before (rev_prefix : bytes) (acc : bytes) : option bytes :=
   | [] => None
   | c :: before => if rune_start c then Some (c :: acc) else rune_start_before before (c :: acc)
   end.
+(* utf8.DecodeLastRune: the rune value only *)
+Definition decode_last_rune (v : bytes) : N :=
+  match rev v with
+  | [] => 65533
+  | c :: before =>
+    if c <? 128 then c else
+    let fix scan (k : nat) (bef acc : bytes) : option bytes :=
+      match k with
+      | O => None
+      | S k' => match bef with
+                | [] => None
+                | b :: bef' => if rune_start b then Some (b :: acc) else scan k' bef' (b :: acc)
+                end
+      end in
+    match scan 3%nat before [c] with
+    | Some tail => let '(r, w) := decode_rune tail in if w =? N.of_nat (length tail) then r else 65533
+    | None => 65533
+    end
+  end.
+
 Definition to_rune (v : bytes) (pos : Z) : result N :=
   if (pos <? 0)%Z then Ok 65533
   else if (zlen v <=? pos)%Z then Panic    (* source[pos] out of range *)
